@@ -4,6 +4,7 @@ import (
 	"bytes"
 	"encoding/json"
 	"errors"
+	"fmt"
 	"io"
 
 	toml "github.com/pelletier/go-toml/v2"
@@ -34,8 +35,54 @@ func DecodeJSON(out string) ([]*DTree, error) {
 	}
 }
 
+// yamlNamesAreStrings: what a GENERIC decoder makes of the stream (documents decoded into `any`): every `value` must
+// come out as a Go string (a name spelled like null, a boolean, a number or a timestamp has to be quoted by the
+// encoder; decoding into a string field, as DecodeYAML does below, would hide an unquoted `true` or `123`).
+func yamlNamesAreStrings(out string) error {
+	dec := yaml.NewDecoder(bytes.NewReader([]byte(out)))
+	for {
+		var doc any
+		err := dec.Decode(&doc)
+		if errors.Is(err, io.EOF) {
+			return nil
+		}
+		if err != nil {
+			return err
+		}
+		var walk func(v any) error
+		walk = func(v any) error {
+			switch x := v.(type) {
+			case map[string]any:
+				if val, ok := x["value"]; ok {
+					if _, isStr := val.(string); !isStr {
+						return fmt.Errorf("a generic YAML decoder reads a name as %T (%v), not as a string", val, val)
+					}
+				}
+				for _, c := range x {
+					if err := walk(c); err != nil {
+						return err
+					}
+				}
+			case []any:
+				for _, c := range x {
+					if err := walk(c); err != nil {
+						return err
+					}
+				}
+			}
+			return nil
+		}
+		if err := walk(doc); err != nil {
+			return err
+		}
+	}
+}
+
 // DecodeYAML decodes a stream of YAML documents.
 func DecodeYAML(out string) ([]*DTree, error) {
+	if err := yamlNamesAreStrings(out); err != nil {
+		return nil, err
+	}
 	dec := yaml.NewDecoder(bytes.NewReader([]byte(out)))
 	dec.KnownFields(true)
 	var roots []*DTree
